@@ -179,67 +179,67 @@ func verifE5M2(lo, hi int) {
 }
 
 // E4M3 encodes biased float32 exponents 117..135 (2^-10 .. 2^8) non-trivially, E5M2 109..143. One harness per
-// exponent so that they run in parallel; the quick tier runs the trivial ranges and the boundary exponents, the
-// thorough tier all of them (together: all 2^32 bit patterns).
+// exponent so that they run in parallel; together they cover all 2^32 bit patterns (since the encoders were rewritten
+// on integer arithmetic the queries no longer go through z3's floating-point theory and every exponent runs in the quick tier).
 func VerifH_C20_e4m3_encode_lo() { verifE4M3(0, 116) }
 func VerifH_C20_e4m3_encode_hi() { verifE4M3(137, 256) }
 func VerifH_C20_e5m2_encode_lo() { verifE5M2(0, 108) }
 func VerifH_C20_e5m2_encode_hi() { verifE5M2(145, 256) }
 func VerifH_C20_e4m3_encode_x116() { verifE4M3(116, 117) }
-func VerifH_C20_e4m3_encode_x117_thorough() { verifE4M3(117, 118) }
+func VerifH_C20_e4m3_encode_x117() { verifE4M3(117, 118) }
 func VerifH_C20_e4m3_encode_x118() { verifE4M3(118, 119) }
-func VerifH_C20_e4m3_encode_x119_thorough() { verifE4M3(119, 120) }
-func VerifH_C20_e4m3_encode_x120_thorough() { verifE4M3(120, 121) }
+func VerifH_C20_e4m3_encode_x119() { verifE4M3(119, 120) }
+func VerifH_C20_e4m3_encode_x120() { verifE4M3(120, 121) }
 func VerifH_C20_e4m3_encode_x121() { verifE4M3(121, 122) }
-func VerifH_C20_e4m3_encode_x122_thorough() { verifE4M3(122, 123) }
-func VerifH_C20_e4m3_encode_x123_thorough() { verifE4M3(123, 124) }
-func VerifH_C20_e4m3_encode_x124_thorough() { verifE4M3(124, 125) }
-func VerifH_C20_e4m3_encode_x125_thorough() { verifE4M3(125, 126) }
-func VerifH_C20_e4m3_encode_x126_thorough() { verifE4M3(126, 127) }
+func VerifH_C20_e4m3_encode_x122() { verifE4M3(122, 123) }
+func VerifH_C20_e4m3_encode_x123() { verifE4M3(123, 124) }
+func VerifH_C20_e4m3_encode_x124() { verifE4M3(124, 125) }
+func VerifH_C20_e4m3_encode_x125() { verifE4M3(125, 126) }
+func VerifH_C20_e4m3_encode_x126() { verifE4M3(126, 127) }
 func VerifH_C20_e4m3_encode_x127() { verifE4M3(127, 128) }
-func VerifH_C20_e4m3_encode_x128_thorough() { verifE4M3(128, 129) }
-func VerifH_C20_e4m3_encode_x129_thorough() { verifE4M3(129, 130) }
-func VerifH_C20_e4m3_encode_x130_thorough() { verifE4M3(130, 131) }
-func VerifH_C20_e4m3_encode_x131_thorough() { verifE4M3(131, 132) }
-func VerifH_C20_e4m3_encode_x132_thorough() { verifE4M3(132, 133) }
-func VerifH_C20_e4m3_encode_x133_thorough() { verifE4M3(133, 134) }
-func VerifH_C20_e4m3_encode_x134_thorough() { verifE4M3(134, 135) }
+func VerifH_C20_e4m3_encode_x128() { verifE4M3(128, 129) }
+func VerifH_C20_e4m3_encode_x129() { verifE4M3(129, 130) }
+func VerifH_C20_e4m3_encode_x130() { verifE4M3(130, 131) }
+func VerifH_C20_e4m3_encode_x131() { verifE4M3(131, 132) }
+func VerifH_C20_e4m3_encode_x132() { verifE4M3(132, 133) }
+func VerifH_C20_e4m3_encode_x133() { verifE4M3(133, 134) }
+func VerifH_C20_e4m3_encode_x134() { verifE4M3(134, 135) }
 func VerifH_C20_e4m3_encode_x135() { verifE4M3(135, 136) }
 func VerifH_C20_e4m3_encode_x136() { verifE4M3(136, 137) }
 func VerifH_C20_e5m2_encode_x108() { verifE5M2(108, 109) }
-func VerifH_C20_e5m2_encode_x109_thorough() { verifE5M2(109, 110) }
+func VerifH_C20_e5m2_encode_x109() { verifE5M2(109, 110) }
 func VerifH_C20_e5m2_encode_x110() { verifE5M2(110, 111) }
-func VerifH_C20_e5m2_encode_x111_thorough() { verifE5M2(111, 112) }
-func VerifH_C20_e5m2_encode_x112_thorough() { verifE5M2(112, 113) }
+func VerifH_C20_e5m2_encode_x111() { verifE5M2(111, 112) }
+func VerifH_C20_e5m2_encode_x112() { verifE5M2(112, 113) }
 func VerifH_C20_e5m2_encode_x113() { verifE5M2(113, 114) }
-func VerifH_C20_e5m2_encode_x114_thorough() { verifE5M2(114, 115) }
-func VerifH_C20_e5m2_encode_x115_thorough() { verifE5M2(115, 116) }
-func VerifH_C20_e5m2_encode_x116_thorough() { verifE5M2(116, 117) }
-func VerifH_C20_e5m2_encode_x117_thorough() { verifE5M2(117, 118) }
-func VerifH_C20_e5m2_encode_x118_thorough() { verifE5M2(118, 119) }
-func VerifH_C20_e5m2_encode_x119_thorough() { verifE5M2(119, 120) }
-func VerifH_C20_e5m2_encode_x120_thorough() { verifE5M2(120, 121) }
-func VerifH_C20_e5m2_encode_x121_thorough() { verifE5M2(121, 122) }
-func VerifH_C20_e5m2_encode_x122_thorough() { verifE5M2(122, 123) }
-func VerifH_C20_e5m2_encode_x123_thorough() { verifE5M2(123, 124) }
-func VerifH_C20_e5m2_encode_x124_thorough() { verifE5M2(124, 125) }
-func VerifH_C20_e5m2_encode_x125_thorough() { verifE5M2(125, 126) }
-func VerifH_C20_e5m2_encode_x126_thorough() { verifE5M2(126, 127) }
+func VerifH_C20_e5m2_encode_x114() { verifE5M2(114, 115) }
+func VerifH_C20_e5m2_encode_x115() { verifE5M2(115, 116) }
+func VerifH_C20_e5m2_encode_x116() { verifE5M2(116, 117) }
+func VerifH_C20_e5m2_encode_x117() { verifE5M2(117, 118) }
+func VerifH_C20_e5m2_encode_x118() { verifE5M2(118, 119) }
+func VerifH_C20_e5m2_encode_x119() { verifE5M2(119, 120) }
+func VerifH_C20_e5m2_encode_x120() { verifE5M2(120, 121) }
+func VerifH_C20_e5m2_encode_x121() { verifE5M2(121, 122) }
+func VerifH_C20_e5m2_encode_x122() { verifE5M2(122, 123) }
+func VerifH_C20_e5m2_encode_x123() { verifE5M2(123, 124) }
+func VerifH_C20_e5m2_encode_x124() { verifE5M2(124, 125) }
+func VerifH_C20_e5m2_encode_x125() { verifE5M2(125, 126) }
+func VerifH_C20_e5m2_encode_x126() { verifE5M2(126, 127) }
 func VerifH_C20_e5m2_encode_x127() { verifE5M2(127, 128) }
-func VerifH_C20_e5m2_encode_x128_thorough() { verifE5M2(128, 129) }
-func VerifH_C20_e5m2_encode_x129_thorough() { verifE5M2(129, 130) }
-func VerifH_C20_e5m2_encode_x130_thorough() { verifE5M2(130, 131) }
-func VerifH_C20_e5m2_encode_x131_thorough() { verifE5M2(131, 132) }
-func VerifH_C20_e5m2_encode_x132_thorough() { verifE5M2(132, 133) }
-func VerifH_C20_e5m2_encode_x133_thorough() { verifE5M2(133, 134) }
-func VerifH_C20_e5m2_encode_x134_thorough() { verifE5M2(134, 135) }
-func VerifH_C20_e5m2_encode_x135_thorough() { verifE5M2(135, 136) }
-func VerifH_C20_e5m2_encode_x136_thorough() { verifE5M2(136, 137) }
-func VerifH_C20_e5m2_encode_x137_thorough() { verifE5M2(137, 138) }
-func VerifH_C20_e5m2_encode_x138_thorough() { verifE5M2(138, 139) }
-func VerifH_C20_e5m2_encode_x139_thorough() { verifE5M2(139, 140) }
-func VerifH_C20_e5m2_encode_x140_thorough() { verifE5M2(140, 141) }
-func VerifH_C20_e5m2_encode_x141_thorough() { verifE5M2(141, 142) }
-func VerifH_C20_e5m2_encode_x142_thorough() { verifE5M2(142, 143) }
+func VerifH_C20_e5m2_encode_x128() { verifE5M2(128, 129) }
+func VerifH_C20_e5m2_encode_x129() { verifE5M2(129, 130) }
+func VerifH_C20_e5m2_encode_x130() { verifE5M2(130, 131) }
+func VerifH_C20_e5m2_encode_x131() { verifE5M2(131, 132) }
+func VerifH_C20_e5m2_encode_x132() { verifE5M2(132, 133) }
+func VerifH_C20_e5m2_encode_x133() { verifE5M2(133, 134) }
+func VerifH_C20_e5m2_encode_x134() { verifE5M2(134, 135) }
+func VerifH_C20_e5m2_encode_x135() { verifE5M2(135, 136) }
+func VerifH_C20_e5m2_encode_x136() { verifE5M2(136, 137) }
+func VerifH_C20_e5m2_encode_x137() { verifE5M2(137, 138) }
+func VerifH_C20_e5m2_encode_x138() { verifE5M2(138, 139) }
+func VerifH_C20_e5m2_encode_x139() { verifE5M2(139, 140) }
+func VerifH_C20_e5m2_encode_x140() { verifE5M2(140, 141) }
+func VerifH_C20_e5m2_encode_x141() { verifE5M2(141, 142) }
+func VerifH_C20_e5m2_encode_x142() { verifE5M2(142, 143) }
 func VerifH_C20_e5m2_encode_x143() { verifE5M2(143, 144) }
 func VerifH_C20_e5m2_encode_x144() { verifE5M2(144, 145) }
